@@ -1354,14 +1354,22 @@ def run(tier, seed, replay=None):
     kinds = {}
     terms, infos = [], []
     n_x1 = 0 if replay else (150 if quick else 1500)
+    only_x1 = None
+    if replay and rp.get("kind") == "x1":
+        # regenerate the recorded case: X1 has its own generator state (tier of the recording)
+        only_x1 = int(rp["index"])
+        n_x1 = only_x1 + 1
     seen_hash = set()
     x1_nontrivial = 0
     oracle_x1 = []
+    rng1 = random.Random((int(rp.get("seed", seed)) if replay and rp.get("kind") == "x1" else seed) * 1000003 + 111)
     for i in range(n_x1):
         if i % 4 == 0:
-            root, mode = gen_value(rng, 3, []), 0
+            root, mode = gen_value(rng1, 3, []), 0
         else:
-            root, mode = gen_state_graph(rng, kinds), 1
+            root, mode = gen_state_graph(rng1, kinds), 1
+        if only_x1 is not None and i != only_x1:
+            continue
         try:
             term, info, decoded = x1_case(root, mode)
         except Unrenderable as ex:
@@ -1377,8 +1385,10 @@ def run(tier, seed, replay=None):
                 x1_nontrivial += 1
     # reachable states of the real interpreter: X1 + the hypothesis of C11_state_roundtrip
     real_terms, real_names, alpha_terms = [], [], []
-    if not replay:
+    if not replay or rp.get("kind") == "x1real":
         for name, st in real_states():
+            if replay and name != rp.get("state"):
+                continue
             try:
                 term, info, _dec = x1_case(st, 1)
                 hp, rt, _im, _kp = render_graph(st)
